@@ -447,6 +447,8 @@ pub fn record_c10(rec: &mut Recorder, seed: u64, thorough: bool) {
                 let mut s2: lightmotif::seq::StripedSequence<A, U32> = pli.stripe(A::syms(&rc_ranks));
                 // every other pair of sequences was used with a shorter motif before (look-ahead rows added in two steps)
                 if it % 2 == 0 && m >= 3 { s1.configure_wrap(1 + it % (m - 2)); s2.configure_wrap(1 + (it / 2) % (m - 2)); }
+                // ... or with a LONGER motif (both strands configured once for the longest motif of a collection)
+                if it % 5 == 1 { s1.configure_wrap(m + 2 + it % 4); s2.configure_wrap(m + 1 + it % 3); }
                 // the single-position entry point, on sequences holding FEWER look-ahead rows than the motif needs
                 // (score_position indexes by position and does not depend on them)
                 let n = if ranks.len() >= m { ranks.len() - m + 1 } else { 0 };
@@ -455,7 +457,15 @@ pub fn record_c10(rec: &mut Recorder, seed: u64, thorough: bool) {
                 s1.configure(&sm);
                 s2.configure(&rcm);
                 let sc1 = sm.score(&s1);
-                let sc2 = rcm.score(&s2);
+                // every third pair: the opposite strand is striped INTO the buffer that held (and was configured for)
+                // the first strand, the way a caller walks over both strands with one buffer
+                let sc2 = if it % 3 == 1 {
+                    pli.stripe_into(A::syms(&rc_ranks), &mut s1);
+                    s1.configure(&rcm);
+                    rcm.score(&s1)
+                } else {
+                    rcm.score(&s2)
+                };
                 let o1: Vec<Value> = sc1.unstripe().iter().map(|&x| grid(x, 2)).collect();
                 let o2: Vec<Value> = sc2.unstripe().iter().map(|&x| grid(x, 2)).collect();
                 // the same scores read from the back (position L-M-i of one strand against position i of the other)
